@@ -14,6 +14,8 @@ if '--only' in sys.argv:
 respath = 'tools/matrix_results.json'
 res = json.load(open(respath)) if os.path.exists(respath) else {}
 claimed = [c['property_id'] for c in json.load(open('tools/checks.json'))['checks']]
+if only:
+    claimed = sorted(set(claimed) | only)
 # a change seeded for one property is also run against checks of closely related properties
 EXTRA = {'C03': ['C01', 'C04'], 'C04': ['C03', 'C01'], 'C05': ['C07', 'C06'], 'C07': ['C05'], 'C06': ['C05'], 'C01': ['C03'], 'C13': [], 'C02': ['C15']}
 jobs = []
